@@ -329,6 +329,20 @@ func Explicit(t *rapid.T, o DataOpts) *DataSpec {
 			rows = append(rows, model.Row{base + w[:k]: w[k:], base: "other"})
 		}
 	}
+	// key-layout twins: the stored key of a pair is hash(column NUL value), the
+	// result-cache key of a comparison hash(8-byte length of column, column,
+	// value); for the column named "" the bytes of the first for the value
+	// seven NULs + v equal the bytes of the second for the value v.  Nobody may
+	// keep both kinds of key in one table.
+	if !o.IdentCols && rapid.IntRange(0, 29).Draw(t, "keylayout") == 0 {
+		v := rapid.SampledFrom([]string{"x", "", "1"}).Draw(t, "klv")
+		for i := 0; i < 3; i++ {
+			rows = append(rows, model.Row{"": v})
+		}
+		for i := 0; i < 7; i++ {
+			rows = append(rows, model.Row{"": "\x00\x00\x00\x00\x00\x00\x00" + v})
+		}
+	}
 	// length-field wrap twins: a column name longer than 255 / 65,535 bytes, and
 	// the pair obtained by cutting the name at its length modulo 2^8 / 2^16 and
 	// moving the rest in front of the value - whoever stores the length of a
